@@ -279,7 +279,7 @@ Qed.
 (* ---- tie to the source by regeneration (DESIGN.md 4.2): the six termination thresholds and the two zoom switches of shape/line.go,
    read from /repo's current source as exact decimals (m, e) = m * 10^e, are the values the model uses ---- *)
 From SIDGen Require Generated.
-From SID Require GenEqConst LineGen.
+From SID Require GenEqConst LineGen GenC06.
 Theorem C06_generated_thresholds_are_the_models :
   (Generated.LonMinima, Generated.LatMinima, Generated.AltMinima) = ((2, -8), (2, -8), (3, -3))%Z /\
   (Generated.HightZoomLonMinima, Generated.HightZoomLatMinima, Generated.HightZoomAltMinima) = ((5, -9), (5, -10), (5, -4))%Z.
@@ -307,3 +307,61 @@ Theorem C06_model_switches_and_real_thresholds_are_the_generated_ones :
   thr_alt v = (if (Generated.LineSwitch_vZoom <=? v)%Z then LineGen.dec2r Generated.HightZoomAltMinima else LineGen.dec2r Generated.AltMinima).
 Proof. exact (conj LineGen.line_switches_are_generated LineGen.line_real_thresholds_are_generated). Qed.
 Print Assumptions C06_model_switches_and_real_thresholds_are_the_generated_ones.
+
+(* ---------- the main results over the FLOAT KERNELS REGENERATED from the Go source (generated/GeneratedF.v) ----------
+   gen_vox = voxel of a point through GeneratedF.getHorizontalTileIdOnPoint_{lonIndex,latIndex} and getVerticalTileIdOnAltitude_vIndex;
+   gen_vox_in = the same after object.NewPoint over GeneratedF.Point_SetLon / Point_SetLat; gen_thresholds = the generated decimals
+   and switches; gen_line_ids = the midpoint recursion (hand-transcribed control flow) over these. M : libm = Go's math package. *)
+(* the model that is executed and compared with the Go code is the recursion over the regenerated kernels and constants *)
+Theorem C06_generated_kernels_give_the_executed_model : forall M h v s e,
+  GenC06.gen_line_ids M h v s e = line_ids_pt (GeneratedF.m_tan M) (GeneratedF.m_cos M) (GeneratedF.m_log M) h v s e.
+Proof. exact GenC06.gen_line_ids_is_model. Qed.
+Print Assumptions C06_generated_kernels_give_the_executed_model.
+Theorem C06_generated_no_duplicates : forall M h v s e l, GenC06.gen_line_ids M h v s e = Some l -> NoDup l.
+Proof. exact GenC06.gen_line_NoDup. Qed.
+Print Assumptions C06_generated_no_duplicates.
+Theorem C06_generated_end_voxels_present : forall M h v s e l, GenC06.gen_line_ids M h v s e = Some l ->
+  In (GenC06.gen_vox M h v s) l /\ In (GenC06.gen_vox M h v e) l.
+Proof. exact GenC06.gen_line_ends. Qed.
+Print Assumptions C06_generated_end_voxels_present.
+Theorem C06_generated_single_voxel : forall M h v s e, GenC06.gen_vox M h v s = GenC06.gen_vox M h v e ->
+  GenC06.gen_line_ids M h v s e = Some [GenC06.gen_vox M h v s].
+Proof. exact GenC06.gen_line_single. Qed.
+Print Assumptions C06_generated_single_voxel.
+(* every emitted voxel is the generated voxel of the float midpoint of a halving piece, stored again through the generated setters *)
+Theorem C06_generated_emitted_voxels : forall M h v s e l,
+  mids point (GenC06.gen_vox_in M h v) mid_pt (small_pt (GenC06.gen_thresholds h v)) line_fuel s e = Some l ->
+  forall i, In i l -> exists a b k n, sub mid_pt s e a b k n /\ i = GenC06.gen_vox M h v (GenC06.gen_restore (mid_pt a b)).
+Proof. exact GenC06.gen_line_emitted. Qed.
+Print Assumptions C06_generated_emitted_voxels.
+(* PARTIAL chain theorem over the generated kernels (same condition as C06_float_model_connected_checked_partial) *)
+Theorem C06_generated_connected_checked_partial : forall M h v s e l d,
+  line_run (GeneratedF.m_tan M) (GeneratedF.m_cos M) (GeneratedF.m_log M) h v s e = Some (l, d, true) ->
+  GenC06.gen_unstable M h v s = false -> GenC06.gen_unstable M h v e = false ->
+  GenC06.gen_line_ids M h v s e = Some l /\
+  forall i, In i l -> reach (adjF (GenC06.gen_folds M h v s e)) l (GenC06.gen_vox M h v s) i.
+Proof. exact GenC06.gen_line_connected_checked. Qed.
+Print Assumptions C06_generated_connected_checked_partial.
+Example C06_generated_connected_nonvacuous : exists l d,
+  line_run (GeneratedF.m_tan GenC06.eq_libm) (GeneratedF.m_cos GenC06.eq_libm) (GeneratedF.m_log GenC06.eq_libm) 12 22 eq_s1 eq_e1 = Some (l, d, true) /\
+  GenC06.gen_unstable GenC06.eq_libm 12 22 eq_s1 = false /\ GenC06.gen_unstable GenC06.eq_libm 12 22 eq_e1 = false /\
+  GenC06.gen_line_ids GenC06.eq_libm 12 22 eq_s1 eq_e1 = Some l /\ (10 < List.length l)%nat.
+Proof. exact GenC06.gen_eq_run. Qed.
+(* D14 over the generated setter and kernels *)
+Theorem C06_generated_SetLat_not_idempotent :
+  GeneratedF.Point_SetLat 0 0 0 d14_lat = (0, d14_lat2, 0, false)%float /\ (d14_lat2 =? d14_lat)%float = false.
+Proof. exact GenC06.gen_setlat_not_idempotent. Qed.
+Print Assumptions C06_generated_SetLat_not_idempotent.
+Theorem C06_generated_D14_witness_in_class :
+  GenC06.gen_vox GenC06.d14_libm 34 6 d14_start = mk 34 10772080123 15465462393 6 0 /\
+  GenC06.gen_vox_in GenC06.d14_libm 34 6 d14_start = mk 34 10772080123 15465462392 6 0 /\
+  GenC06.gen_unstable GenC06.d14_libm 34 6 d14_start = true.
+Proof. exact GenC06.gen_D14_in_class. Qed.
+Print Assumptions C06_generated_D14_witness_in_class.
+(* the wrap width of the face-neighbour test is the regenerated maxIndex of GetShiftingSpatialID plus one, for every accepted zoom *)
+Theorem C06_generated_shift_width : forall a dx dy dv m, 0 <= eh a <= 35 ->
+  GeneratedF.GetShiftingSpatialID_maxIndex dx dy dv (eh a) = Some m ->
+  shift_eid a dx dy dv =
+  {| eh := eh a; ex := wrap (ex a) dx (m + 1); ey := wrap (ey a) dy (m + 1); ev := ev a; ef := ef a + dv |}.
+Proof. exact GenC06.gen_shift_width. Qed.
+Print Assumptions C06_generated_shift_width.
